@@ -201,6 +201,10 @@ class RSAKey(object):
         :type sLen: int
         :param sLen: length of salt"""
         EM = self.EMSA_PSS_encode(mHash, numBits(self.n) - 1, hAlg, sLen)
+        # when the modulus is 8k+1 bits long the encoded message is one
+        # byte shorter than the modulus (RFC 8017, section 8.1.1, step 2)
+        if len(EM) < numBytes(self.n):
+            EM = bytearray(numBytes(self.n) - len(EM)) + EM
         try:
             ret = self._raw_private_key_op_bytes(EM)
         except ValueError:
@@ -281,6 +285,12 @@ class RSAKey(object):
             EM = self._raw_public_key_op_bytes(S)
         except ValueError:
             raise InvalidSignature("Invalid signature")
+        # RFC 8017, section 8.1.2, step 2c: EM is ceil((modBits-1)/8) bytes
+        # long, for a modulus of 8k+1 bits that's one less than the modulus
+        emLen = divceil(numBits(self.n) - 1, 8)
+        if any(EM[:-emLen]):
+            raise InvalidSignature("Invalid signature")
+        EM = EM[-emLen:]
         result = self.EMSA_PSS_verify(mHash, EM, numBits(self.n) - 1,
                                       hAlg, sLen)
         if result:
